@@ -381,14 +381,29 @@ Proof.
     rewrite !Hno. simpl. now rewrite andb_true_r.
 Qed.
 
+Lemma flat_map_ext_in' {A B} (f1 f2 : A -> list B) l :
+  (forall x, In x l -> f1 x = f2 x) -> flat_map f1 l = flat_map f2 l.
+Proof.
+  induction l as [|x l IH]; intros H; simpl; auto.
+  rewrite (H x (or_introl eq_refl)), IH; auto. intros y Hy. apply H. now right.
+Qed.
+
 (* the imports given by a list of USE statements of M *)
 Definition imports_of (g : graph) (M : module) (A : module -> list (str * ent)) (us : list use_stmt) :=
   flat_map (fun u => match find_module g (u_target u) with
                      | Some T => import_stmt M u (A T)
                      | None => []
                      end) us.
-Lemma imports_is g M A : imports g M A = imports_of g M A (m_uses M).
-Proof. reflexivity. Qed.
+Lemma spec_module_some g u T : spec_module g u = Some T -> find_module g (u_target u) = Some T.
+Proof. unfold spec_module. destruct (u_intrinsic u); [discriminate | auto]. Qed.
+(* outside the region of intrinsic-nature-ignored the module a statement designates is the one
+   find_used_modules finds *)
+Lemma imports_is g M A : nature_ok g M = true -> imports g M A = imports_of g M A (m_uses M).
+Proof.
+  unfold nature_ok. rewrite forallb_forall. intros H. unfold imports, imports_of.
+  apply flat_map_ext_in'. intros u Hu. unfold spec_module. specialize (H u Hu).
+  destruct (u_intrinsic u); auto. simpl in H. destruct (find_module g (u_target u)); [discriminate | reflexivity].
+Qed.
 
 Lemma fold_use_step g M (h : module -> tabs) (A : module -> list (str * ent)) :
   forallb (fun a => negb (declared M (fst a))) (m_access M) = true ->
@@ -440,6 +455,7 @@ Proof.
 Qed.
 
 Lemma mstep_spec c g M (h : module -> tabs) (A : module -> list (str * ent)) :
+  nature_ok g M = true ->
   forallb (fun a => negb (declared M (fst a))) (m_access M) = true ->
   NoDup (map fst (m_access M)) ->
   (forall u T, In u (m_uses M) -> find_module g (u_target u) = Some T ->
@@ -450,7 +466,7 @@ Lemma mstep_spec c g M (h : module -> tabs) (A : module -> list (str * ent)) :
   denotes (fst R) (own_public c M ++ filter (fun ne => reexported M (fst ne)) (imports g M A))
   /\ denotes (snd R) (own_scope c M ++ imports g M A) /\ NoDup (map fst (fst R)).
 Proof.
-  intros Hacc NDa Hh F Hnd. unfold mstep. rewrite imports_is in *.
+  intros Hnat Hacc NDa Hh F Hnd. unfold mstep. rewrite (imports_is g M A Hnat) in *.
   apply fold_use_step; auto.
   - apply own_pub_denotes.
   - apply own_pub_denotes.
@@ -585,12 +601,6 @@ Proof.
   revert a. induction l as [|x l IH]; intros a H; simpl; auto.
   rewrite (H x a (or_introl eq_refl)). apply IH. intros y acc Hy. apply H. now right.
 Qed.
-Lemma flat_map_ext_in' {A B} (f1 f2 : A -> list B) l :
-  (forall x, In x l -> f1 x = f2 x) -> flat_map f1 l = flat_map f2 l.
-Proof.
-  induction l as [|x l IH]; intros H; simpl; auto.
-  rewrite (H x (or_introl eq_refl)), IH; auto. intros y Hy. apply H. now right.
-Qed.
 
 Lemma mstep_ext c g M h1 h2 p :
   (forall u, In u (m_uses M) -> u_target u <> m_name M) ->
@@ -607,7 +617,7 @@ Lemma imports_ext g M A1 A2 :
   imports g M A1 = imports g M A2.
 Proof.
   intros Hs H. unfold imports. apply flat_map_ext_in'. intros u Hu.
-  destruct (find_module g (u_target u)) as [T|] eqn:Ef; auto.
+  destruct (spec_module g u) as [T|] eqn:Ef; auto. apply spec_module_some in Ef.
   destruct (target_in_deps g M u T Hs Hu Ef) as [HT Hd]. now rewrite (H T HT Hd).
 Qed.
 
@@ -782,14 +792,21 @@ Proof.
   reflexivity.
 Qed.
 
+Lemma nature_free_facts g : nature_free g = true -> forall M, In M g ->
+  nature_ok g M = true /\ forall S, In S (m_nested M) -> nature_ok g (as_module M S) = true.
+Proof.
+  unfold nature_free. rewrite forallb_forall. intros H M HM. specialize (H M HM).
+  apply andb_true_iff in H as [H1 H2]. split; auto. rewrite forallb_forall in H2. exact H2.
+Qed.
+
 Lemma mtab_spec c g o :
-  wf_graph g = true -> topo_b g o = true ->
+  wf_graph g = true -> nature_free g = true -> topo_b g o = true ->
   forall k l1 n l2 M, length l1 = k -> o = l1 ++ n :: l2 -> find_module g n = Some M ->
   denotes (fst (mtab (S k) c g M)) (accessible_n (S k) c g M)
   /\ denotes (snd (mtab (S k) c g M)) (own_scope c M ++ imports g M (accessible_n k c g))
   /\ NoDup (map fst (fst (mtab (S k) c g M))).
 Proof.
-  intros Hwf Ht. destruct (wf_graph_facts g Hwf) as (ND & Hs & HwfM).
+  intros Hwf Hnf Ht. destruct (wf_graph_facts g Hwf) as (ND & Hs & HwfM).
   pose proof (topo_length g o Ht) as Hlen.
   pose proof Ht as Ht'. apply topo_b_facts in Ht' as (_ & _ & _ & TP).
   induction k as [k IH] using lt_wf_ind. intros l1 n l2 M Hl Eo Ef.
@@ -800,6 +817,7 @@ Proof.
   { rewrite <- Hl. symmetry. apply (imports_settled c g o Ht Hs l1 n l2 M Eo Ef). now rewrite Hl. }
   simpl mtab. simpl accessible_n.
   apply mstep_spec; auto.
+  - now apply (nature_free_facts g Hnf M HM).
   - intros u T Hu EfT.
     destruct (target_in_deps g M u T (no_self_use_M g M Hs HM) Hu EfT) as [HT Hd].
     destruct (TP l1 n l2 Eo) as (M' & Ef' & Hdeps). assert (M' = M) by congruence. subst M'.
@@ -815,20 +833,20 @@ Proof.
 Qed.
 
 Lemma mtab_final_spec c g o :
-  wf_graph g = true -> topo_b g o = true ->
+  wf_graph g = true -> nature_free g = true -> topo_b g o = true ->
   forall M, In M g ->
   denotes (fst (mtab (length g) c g M)) (accessible c g M)
   /\ denotes (snd (mtab (length g) c g M)) (scope c g M)
   /\ NoDup (map fst (fst (mtab (length g) c g M))).
 Proof.
-  intros Hwf Ht M HM. destruct (wf_graph_facts g Hwf) as (ND & Hs & _).
+  intros Hwf Hnf Ht M HM. destruct (wf_graph_facts g Hwf) as (ND & Hs & _).
   pose proof (topo_length g o Ht) as Hlen.
   pose proof Ht as Ht'. apply topo_b_facts in Ht' as (_ & _ & Sset & _).
   assert (Hin : In (m_name M) o) by (apply Sset; now apply in_map).
   apply in_split in Hin as (l1 & l2 & Eo).
   pose proof (find_module_nodup g M ND HM) as Ef.
   assert (Hl : S (length l1) <= length g) by (rewrite <- Hlen, Eo, app_length; simpl; lia).
-  destruct (mtab_spec c g o Hwf Ht (length l1) l1 (m_name M) l2 M eq_refl Eo Ef) as (D1 & D2 & N1).
+  destruct (mtab_spec c g o Hwf Hnf Ht (length l1) l1 (m_name M) l2 M eq_refl Eo Ef) as (D1 & D2 & N1).
   rewrite (mtab_stable c g o Ht Hs l1 (m_name M) l2 M Eo Ef (length g) Hl).
   unfold accessible, scope.
   rewrite (accessible_n_stable c g o Ht Hs l1 (m_name M) l2 M Eo Ef (length g) Hl).
@@ -836,12 +854,12 @@ Proof.
   auto.
 Qed.
 
-Theorem full_correct g o :
-  wf_graph g = true -> topo_b g o = true ->
+Theorem partial_correct g o :
+  wf_graph g = true -> nature_free g = true -> topo_b g o = true ->
   forall c M, In M g -> tables_ok c g (correlate_all c g o) M.
 Proof.
-  intros Hwf Ht c M HM. destruct (wf_graph_facts g Hwf) as (ND & Hs & _).
-  destruct (mtab_final_spec c g o Hwf Ht M HM) as (D1 & D2 & _).
+  intros Hwf Hnf Ht c M HM. destruct (wf_graph_facts g Hwf) as (ND & Hs & _).
+  destruct (mtab_final_spec c g o Hwf Hnf Ht M HM) as (D1 & D2 & _).
   unfold tables_ok. rewrite (correlate_all_mtab c g o Ht Hs M HM). split; assumption.
 Qed.
 
@@ -856,11 +874,12 @@ Proof.
 Qed.
 
 Theorem nested_correct c g o :
-  wf_graph g = true -> topo_b g o = true ->
+  wf_graph g = true -> nature_free g = true -> topo_b g o = true ->
   forall M S, In M g -> In S (m_nested M) ->
   denotes (nested_imports_model c g o M S) (nested_imports c g M S).
 Proof.
-  intros Hwf Ht M S HM HS. destruct (wf_graph_facts g Hwf) as (ND & Hs & _).
+  intros Hwf Hnf Ht M S HM HS. destruct (wf_graph_facts g Hwf) as (ND & Hs & _).
+  destruct (nature_free_facts g Hnf M HM) as [_ HnS]. specialize (HnS S HS).
   destruct (wf_graph_nested g M S Hwf HM HS) as [Fn Hnd].
   pose proof Ht as Ht'. apply topo_b_facts in Ht' as (_ & NDo & Sset & TP).
   assert (Hin : In (m_name M) o) by (apply Sset; now apply in_map).
@@ -882,7 +901,7 @@ Proof.
     apply Hdeps in Hd. unfold st_tabs.
     rewrite (correlate_prefix c g o Ht Hs l1 (m_name M :: l2) Eo T HT).
     apply str_in_In in Hd. rewrite Hd.
-    destruct (mtab_final_spec c g o Hwf Ht T HT) as (D1 & _ & N1). auto.
+    destruct (mtab_final_spec c g o Hwf Hnf Ht T HT) as (D1 & _ & N1). auto.
   - constructor.
   - apply denotes_nil.
   - apply denotes_nil.
@@ -1011,7 +1030,7 @@ Proof.
   - now apply (own_public_exported c g M HM n e).
   - apply in_app_iff in H as [H|H]; [now apply (own_public_exported c g M HM n e)|].
     apply filter_In in H as [H _]. unfold imports in H. apply in_flat_map in H as (u & Hu & H).
-    destruct (find_module g (u_target u)) as [T|] eqn:Ef; [|destruct H].
+    destruct (spec_module g u) as [T|] eqn:Ef; [|destruct H]. apply spec_module_some in Ef.
     apply import_stmt_from in H as [r H]. apply find_module_some in Ef as [HT _]. eauto.
 Qed.
 
@@ -1109,7 +1128,8 @@ Lemma refute_pub_extra c g st M n e :
 Proof. intros H1 H2 [H _]. apply H in H1. apply in_b_In in H1. congruence. Qed.
 
 Definition mkD n k p : decl := {| d_name := s n; d_kind := k; d_perm := p |}.
-Definition mkU t o r : use_stmt := {| u_target := s t; u_only := o; u_renames := r |}.
+Definition mkU t o r : use_stmt := {| u_target := s t; u_only := o; u_renames := r; u_intrinsic := false |}.
+Definition mkUi t o r : use_stmt := {| u_target := s t; u_only := o; u_renames := r; u_intrinsic := true |}.
 Definition mkMn n p ds a us ns : module :=
   {| m_name := s n; m_default := p; m_decls := ds; m_access := a; m_uses := us; m_nested := ns |}.
 Definition mkM n p ds a us : module := mkMn n p ds a us [].
